@@ -6,6 +6,7 @@ with one mutation per alternate count b = 0..d at fixed depth must sum to one at
 point is the sum of its members' grids and its outlier terms are size*log p, size*log1p(-p) (p = 0 -> 0, 0).
 """
 import math
+import os
 
 import numpy as np
 from hypothesis import strategies as st
@@ -97,7 +98,26 @@ def _norm_case(draw):
     )
 
 
+@st.composite
+def _runopts_case(draw):
+    n = draw(st.integers(2, 4))
+    dims = draw(st.integers(1, 2))
+    rows = []
+    for m in range(n):
+        for s in range(dims):
+            major, minor, normal, t, eps = draw(_row_params())
+            ref, alt = draw(_counts())
+            rows.append(dict(mutation_id="m%d" % m, sample_id="s%d" % s, ref_counts=ref, alt_counts=alt, major_cn=major, minor_cn=minor, normal_cn=normal, tumour_content=t, error_rate=eps))
+    mode = draw(st.sampled_from(["user", "plain", "assign-without-cluster-file", "clustered-plain"]))
+    cl = {"m%d" % m: draw(st.integers(0, 2)) for m in range(n)} if mode in ("user", "clustered-plain") else None
+    probs = {c: draw(st.sampled_from([0.0, 0.3, 0.001, 0.0, 0.05])) for c in sorted(set(cl.values()))} if mode == "user" else None
+    return dict(kind="runopts", rows=rows, mode=mode, clusters=cl, probs=probs, outlier_prob=draw(st.sampled_from([0.0, 0.01, 0.0])),
+                lows=draw(st.sampled_from([[1e-4, 0.05], [0.002, 1e-4]])), highs=draw(st.sampled_from([[0.4, 0.9], [0.4, 0.4]])), G=draw(st.sampled_from([5, 11])))
+
+
 def strategy(ctx, shard=0):
+    if shard % 8 == 5:
+        return _runopts_case()
     return _norm_case() if shard % 4 == 3 else _table_case()
 
 
@@ -113,7 +133,62 @@ def warmup():
 def evaluate(case):
     if case["kind"] == "norm":
         return _norm(case)
+    if case["kind"] == "runopts":
+        return _runopts(case)
     return _table(case)
+
+
+def _runopts(case):
+    """`phyclone run` option handling in front of the chains.  Grounded in the CLI help: --low-loss-prob / --high-loss-prob
+    'do nothing' unless combined with --assign-loss-prob and a cluster file; --user-provided-loss-prob takes the prior from
+    the cluster file's outlier_prob column.  Every chain of a run receives the same data and the same outlier setting,
+    whatever the number of chains."""
+    import tempfile
+
+    from vp.runopts import capture_run
+
+    tags = dict(mode=case["mode"])
+    os.makedirs(SCRATCH, exist_ok=True)
+    seen = []
+    with tempfile.TemporaryDirectory(dir=SCRATCH) as td:
+        inp = os.path.join(td, "in.tsv")
+        po.write_table(case["rows"], inp)
+        cf = None
+        if case["clusters"] is not None:
+            cf = os.path.join(td, "cl.tsv")
+            with open(cf, "w") as f:
+                f.write("mutation_id\tcluster_id" + ("\toutlier_prob\n" if case["probs"] is not None else "\n"))
+                for m, c in case["clusters"].items():
+                    f.write("%s\t%d" % (m, c) + ("\t%r\n" % case["probs"][c] if case["probs"] is not None else "\n"))
+        for low, high in zip(case["lows"], case["highs"]):
+            for chains in (1, 2):
+                kw = dict(in_file=inp, out_file=os.path.join(td, "o.pkl.gz"), cluster_file=cf, burnin=1, num_iters=1, num_particles=2, grid_size=case["G"], seed=7, num_chains=chains, density="binomial",
+                          outlier_prob=case["outlier_prob"], low_loss_prob=low, high_loss_prob=high, assign_loss_prob=case["mode"] == "assign-without-cluster-file", user_provided_loss_prob=case["mode"] == "user")
+                try:
+                    calls = capture_run(**kw)
+                except Exception as e:
+                    raise crash_violation("run-options", e, tags)
+                if sorted(c["chain_num"] for c in calls) != list(range(chains)):
+                    raise Violation("run-options/chains", "%d chains requested, chain function called for %r" % (chains, [c["chain_num"] for c in calls]), tags)
+                for c in calls:
+                    seen.append(((low, high, chains, c["chain_num"]), float(c["outlier_prob"]), [(dp.name, float(dp.outlier_prob), float(dp.outlier_prob_not)) for dp in c["data"]]))
+    ref = seen[0]
+    for key, op, terms in seen[1:]:
+        if op != ref[1] or terms != ref[2]:
+            what = "the number of chains / the chain" if key[:2] == ref[0][:2] else "--low-loss-prob/--high-loss-prob (documented to do nothing here)"
+            raise Violation("run-options/outlier-setting", "mode %s, --outlier-prob %r: chain %d of %d with low/high %r gets outlier setting %r and prior terms %r; chain 0 of 1 with low/high %r gets %r and %r: they differ with %s" % (case["mode"], case["outlier_prob"], key[3], key[2], key[:2], op, terms, ref[0][:2], ref[1], ref[2], what), tags)
+    if case["mode"] == "user":
+        sizes = {}
+        for m, c in case["clusters"].items():
+            sizes[c] = sizes.get(c, 0) + 1
+        for name, eo, en in ref[2]:
+            p = case["probs"][int(name)]
+            if p > 0 and (abs(eo - sizes[int(name)] * math.log(p)) > 1e-9 * max(1, abs(eo)) or abs(en - sizes[int(name)] * math.log1p(-p)) > 1e-9):
+                raise Violation("run-options/user-prior", "cluster %s (size %d) with user-provided loss probability %r has prior terms (%r, %r)" % (name, sizes[int(name)], p, eo, en), tags)
+    any_prior = any(t[1] != 0 for t in ref[2])
+    if any_prior and not ref[1] > 0:
+        raise Violation("run-options/kernel-setting", "the data carry outlier priors but the chains are started with outlier probability %r (no outlier placement would be proposed)" % (ref[1],), tags)
+    return Outcome(nontrivial=case["mode"] != "plain", classes=("kind:runopts", "mode:" + case["mode"], "outlier_prob=0" if case["outlier_prob"] == 0 else "outlier_prob>0"), info={k: v for k, v in case.items() if k != "rows"})
 
 
 def _norm(case):
